@@ -340,9 +340,9 @@ claim(
 claim(
     "C36",
     "other",
-    "Narrow: boundedness over 10^4 steps (clause 2) is a statement about trajectories and is not decided. Decided: clause 1 — update_E interpreted on symbolic fields with two poles, isotropic / per-axis coefficient layouts, isotropic / diagonal permittivity, with and without conductivity and dE/dt (c4) coupling: P' = c1 P + c2 P_prev + c3 E (+ c4 E'), P_prev' = P, and the new field satisfies the discrete Ampere law with polarisation current, (1+a) E' = (1-a) E + c inv_eps curl H - inv_eps sum_p (P'_p - P_p), identically in all symbols; with all coefficients and the stored polarisation zero the step equals the non-dispersive step of the same material (iso / diagonal with and without conductivity, full tensor lossless) and the polarisation stays zero. The static side of clause 2: both coefficient routines raise exactly when a coupled axis has omega_0 dt >= 2 (all guard paths enumerated), the Jury margins of z^2 - c1 z - c2 are then non-negative, and placement obtains its coefficient arrays only from those routines.",
+    "The 10^4-step trajectory bound of clause 2 is not decided as such; decided is its acceptance side: the coupled field / polarisation stability limit of the explicit ADE coupling is derived from the verified recurrence (z = -1 margin of the characteristic quartic of one Fourier mode: D Q(-1) = 4 (4 - w0^2 dt^2 - inv_eps a dt^2) - kappa (4 - w0^2 dt^2)), placement's screening function is shown to return exactly the pair whose order is the sign of Q(-1) at the largest curl eigenvalue ((4d/3) S^2 inv_eps inv_mu, courant_number^2 = S^2/3 read off the config), to warn iff beyond, and to be run by _init_arrays for every dispersive simulation with its own time step and Courant factor; exact Schur-Cohn reduction at 1536 rational points confirms root location on both sides of the limit. Also decided: clause 1 — update_E interpreted on symbolic fields with two poles, isotropic / per-axis coefficient layouts, isotropic / diagonal permittivity, with and without conductivity and dE/dt (c4) coupling: P' = c1 P + c2 P_prev + c3 E (+ c4 E'), P_prev' = P, and the new field satisfies the discrete Ampere law with polarisation current, (1+a) E' = (1-a) E + c inv_eps curl H - inv_eps sum_p (P'_p - P_p), identically in all symbols; with all coefficients and the stored polarisation zero the step equals the non-dispersive step of the same material (iso / diagonal with and without conductivity, full tensor lossless) and the polarisation stays zero. The static side of clause 2: both coefficient routines raise exactly when a coupled axis has omega_0 dt >= 2 (all guard paths enumerated), the Jury margins of z^2 - c1 z - c2 are then non-negative, and placement obtains its coefficient arrays only from those routines.",
     TB + "; Levi-Civita oracle of C01; discrete Ampere law with polarisation current as the oracle; identity linalg.solve for the lossless full tensor",
-    "abstract interpretation over a stencil domain; residual polynomial identity against the discrete Ampere law; path enumeration of the acceptance guard; who-may-call table",
+    "abstract interpretation over a stencil domain; residual polynomial identity against the discrete Ampere law; path enumeration of the acceptance guard; who-may-call table; symbolic extraction of the stability screening and polynomial identity with the z = -1 margin of the mode's characteristic quartic; exact Schur-Cohn root counting on the extracted recurrence at rational points",
     "DESIGN.md §5 C36",
 )
 
